@@ -194,11 +194,14 @@ func scenarios(check string) []scenario {
 	add("frost-sign-taproot", 3, 1, 0)
 	add("doerner-keygen", 2, 1, 1)
 	add("doerner-sign", 2, 1, 1)
-	add("cmp-sign", 2, 1, 2)
-	add("cmp-presign", 2, 1, 2)
 	add("cmp-presign-online", 2, 1, 1)
-	add("cmp-keygen", 2, 1, 2)
+	add("cmp-sign", 2, 1, 2)
+	if check == "C04" {
+		add("cmp-presign", 3, 1, 2) // n=3: relayed abort notices exist; state-level deviations of a presigner
+	}
 	if vkit.Thorough() {
+		add("cmp-presign", 2, 1, 2)
+		add("cmp-keygen", 2, 1, 2)
 		add("cmp-refresh", 2, 1, 2)
 		add("cmp-presign-full", 2, 1, 2)
 		add("cmp-sign", 3, 1, 2)
@@ -226,6 +229,9 @@ func (k kase) key() string {
 
 // class is the stable part of a case: protocol, message slot shape, field path shape, operator.
 func (k kase) class(w *world) string {
+	if k.Menu == "state" {
+		return fmt.Sprintf("%s|state|%s|%s", k.Scenario.Proto, k.Path, k.Op)
+	}
 	kind := "p2p"
 	if k.Slot.Broadcast {
 		kind = "bcast"
